@@ -1469,8 +1469,9 @@ func (k *c10k) invariants() []*c10Invariant {
 						}
 						good := false
 						val := mu.Value
-						if ex, isEx := val.(*ssa.Extract); isEx && ex.Index == 0 {
-							val = ex.Tuple
+						ri := 0 // which result of a reading helper the vector is
+						if ex, isEx := val.(*ssa.Extract); isEx {
+							val, ri = ex.Tuple, ex.Index
 						}
 						switch x := val.(type) {
 						case *ssa.MakeSlice:
@@ -1499,11 +1500,15 @@ func (k *c10k) invariants() []*c10Invariant {
 								good = true
 								n := 0
 								for _, ret := range ssau.ReturnsOf(g) {
-									if ssau.IsNilConst(ret.Results[0]) {
+									if ri >= len(ret.Results) {
+										good = false
+										break
+									}
+									if ssau.IsNilConst(ret.Results[ri]) {
 										continue
 									}
 									n++
-									mk, isMk := ret.Results[0].(*ssa.MakeSlice)
+									mk, isMk := ret.Results[ri].(*ssa.MakeSlice)
 									pi := -1
 									if isMk {
 										for i, p := range g.Params {
